@@ -1,7 +1,361 @@
 import M3d.Basic
-/-! Line-protocol handler for C05. Core-only. (stub) -/
-namespace M3d.Drv.C05
+import M3d.Model.Transform
+/-!
+Line-protocol handler for C05.  Core-only; runs the models of `M3d/Model/Transform.lean` at `Rat`.
 
-def handleAll (ws : List String) : Option String := none
+Two sorts of kinds (see notes/C05.md):
+* *faithful* kinds (`apply bounds invdesc appdist solidr inner outer nilcb sphin cbounds vmball mat… pinch apply`)
+  print what the **model of the Go method** computes — they tie the model to the code;
+* *property* kinds (`roundtrip encl dist solid sdf mball coll first sphc … invmul`) print what the
+  **property demands** (the right-hand sides of the theorems in `M3d/Props/C05.lean`), and, where the wrapped
+  object is given by its answers, additionally evaluate the model on a table stub and refuse
+  (`MODEL-NE-SPEC`) if the model does not produce the demanded value.
+
+2-D kinds run the same model on the plane `z = 0` (vectors `(x,y,0)`, `Matrix2` embedded with a unit on the
+diagonal, per-axis scale `(x,y,1)`); only the `mat2` kinds use the separate `M2` model.
+-/
+namespace M3d.Drv.C05
+open M3d M3d.Tf
+
+abbrev Q := Rat
+
+/-- exact square root of a rational square, else `none` -/
+def ratSqrt (q : Q) : Option Q :=
+  if q < 0 then none else
+  let n := q.num.toNat
+  let d := q.den
+  let rn := Nat.sqrt n
+  let rd := Nat.sqrt d
+  if rn * rn = n ∧ rd * rd = d then some ((rn : Q) / (rd : Q)) else none
+
+/-- `math.Sqrt` on the inputs the exact mode produces (perfect squares); `0` flags anything else. -/
+def sqrtQ (q : Q) : Q := (ratSqrt q).getD 0
+
+/-! ### token parsing -/
+
+abbrev P (α : Type) := List String → Option (α × List String)
+
+def pRat : P Q
+  | w :: ws => (parseRat w).map (·, ws)
+  | [] => none
+
+def pNat : P Nat
+  | w :: ws => w.toNat?.map (·, ws)
+  | [] => none
+
+def pV (dim : Nat) (padZ : Q) : P (V3 Q) := fun ws => do
+  let (x, ws) ← pRat ws
+  let (y, ws) ← pRat ws
+  if dim = 2 then some (⟨x, y, padZ⟩, ws) else do
+    let (z, ws) ← pRat ws
+    some (⟨x, y, z⟩, ws)
+
+def pM (dim : Nat) : P (M3 Q) := fun ws =>
+  if dim = 2 then do
+    let (a, ws) ← pRat ws; let (b, ws) ← pRat ws; let (c, ws) ← pRat ws; let (d, ws) ← pRat ws
+    some ((⟨a, b, c, d⟩ : M2 Q).embed, ws)
+  else do
+    let (a0, ws) ← pRat ws; let (a1, ws) ← pRat ws; let (a2, ws) ← pRat ws
+    let (a3, ws) ← pRat ws; let (a4, ws) ← pRat ws; let (a5, ws) ← pRat ws
+    let (a6, ws) ← pRat ws; let (a7, ws) ← pRat ws; let (a8, ws) ← pRat ws
+    some (⟨a0, a1, a2, a3, a4, a5, a6, a7, a8⟩, ws)
+
+mutual
+partial def pXf (dim : Nat) : P (Xf Q)
+  | "T" :: ws => do let (v, ws) ← pV dim 0 ws; some (.translate v, ws)
+  | "S" :: ws => do let (s, ws) ← pRat ws; some (.scale s, ws)
+  | "V" :: ws => do let (v, ws) ← pV dim 1 ws; some (.vecScale v, ws)
+  | "M" :: ws => do let (m, ws) ← pM dim ws; some (.matrix m, ws)
+  | "O" :: ws => do let (m, ws) ← pM dim ws; some (.ortho m, ws)
+  | "Q" :: ws => do
+      let (ax, ws) ← pNat ws
+      let (lo, ws) ← pRat ws; let (hi, ws) ← pRat ws; let (r, ws) ← pRat ws
+      some (.squeeze ax lo hi r, ws)
+  | "J" :: ws => do let (n, ws) ← pNat ws; pJoin dim n ws
+  | _ => none
+partial def pJoin (dim : Nat) : Nat → P (Xf Q)
+  | 0, ws => some (.jnil, ws)
+  | n + 1, ws => do
+      let (t, ws) ← pXf dim ws
+      let (r, ws) ← pJoin dim n ws
+      some (.jcons t r, ws)
+end
+
+/-! ### rendering -/
+
+def sV (dim : Nat) (v : V3 Q) : String :=
+  if dim = 2 then s!"{showRat v.x} {showRat v.y}" else s!"{showRat v.x} {showRat v.y} {showRat v.z}"
+
+def sM (dim : Nat) (m : M3 Q) : String :=
+  if dim = 2 then showList showRat [m.a0, m.a1, m.a3, m.a4]
+  else showList showRat [m.a0, m.a1, m.a2, m.a3, m.a4, m.a5, m.a6, m.a7, m.a8]
+
+def sB (dim : Nat) (b : V3 Q × V3 Q) : String := sV dim b.1 ++ " " ++ sV dim b.2
+
+partial def joinList : Xf Q → List (Xf Q)
+  | .jnil => []
+  | .jcons t r => t :: joinList r
+  | t => [t]
+
+partial def sXf (dim : Nat) : Xf Q → String
+  | .translate v => "T " ++ sV dim v
+  | .scale s => "S " ++ showRat s
+  | .vecScale v => "V " ++ sV dim v
+  | .matrix m => "M " ++ sM dim m
+  | .ortho m => "O " ++ sM dim m
+  | .squeeze ax lo hi r => s!"Q {ax} {showRat lo} {showRat hi} {showRat r}"
+  | t =>
+      let l := joinList t
+      " ".intercalate (s!"J {l.length}" :: l.map (sXf dim))
+
+def sHit (dim : Nat) (h : Hit Q) : String := showRat h.scale ++ " " ++ sV dim h.normal
+
+/-! ### the property's right-hand sides -/
+
+/-- image of a direction under the linear part of an affine transform -/
+def linearPart (t : Xf Q) (d : V3 Q) : V3 Q := (t.apply d).sub (t.apply V3.zero)
+
+/-- unit outward normal demanded for the image surface: the normalised image of the normal under the
+linear part (for the similarity transforms `TransformCollider` accepts this is the normalised
+inverse-transpose image, see `M3d.C05.normal_inverse_transpose`). -/
+def specNormal (t : Xf Q) (n : V3 Q) : V3 Q := (linearPart t n).normalize sqrtQ
+
+def specHit (t : Xf Q) (h : Hit Q) : Hit Q := { scale := h.scale, normal := specNormal t h.normal, extra := h.extra }
+
+/-- the factor by which a similarity changes distances, measured on the model -/
+def specFactor (t : Xf Q) : Q := sqrtQ (linearPart t ⟨1, 0, 0⟩).normSq
+
+/-! ### handlers -/
+
+def pHits (dim : Nat) : Nat → P (List (Hit Q))
+  | 0, ws => some ([], ws)
+  | n + 1, ws => do
+      let (s, ws) ← pRat ws
+      let (nv, ws) ← pV dim 0 ws
+      let (rest, ws) ← pHits dim n ws
+      some ({ scale := s, normal := nv, extra := 0 } :: rest, ws)
+
+def done {α} (r : α × List String) : Option α := if r.2.isEmpty then some r.1 else none
+
+def dummyCollider (hits : List (Hit Q)) : Collider Q :=
+  { lo := V3.zero, hi := V3.zero, hits := fun _ => hits, count := fun _ => hits.length,
+    first := fun _ => match hits with | [] => (⟨0, V3.zero, 0⟩, false) | h :: _ => (h, true),
+    sphere := fun _ _ => false }
+
+/-- a collider known only through its answers on one ray / one sphere -/
+def tableCollider (r : Ray Q) (cnt : Nat) (hits : List (Hit Q)) (first : Hit Q × Bool)
+    (sc : V3 Q) (sr : Q) (sb : Bool) : Collider Q :=
+  { lo := V3.zero, hi := V3.zero,
+    hits := fun r' => if r' = r then hits else [⟨-1, V3.zero, 999⟩],
+    count := fun r' => if r' = r then cnt else 999,
+    first := fun r' => if r' = r then first else (⟨-1, V3.zero, 999⟩, true),
+    sphere := fun c' r' => if c' = sc ∧ r' = sr then sb else !sb }
+
+def rcStr (dim : Nat) : RCResult Q → String
+  | .panic => "panic"
+  | .ok n calls =>
+      if calls.isEmpty then toString n else toString n ++ " " ++ "|".intercalate (calls.map (sHit dim))
+
+def handleXf (dim : Nat) (kind : String) (ws : List String) : Option String := do
+  match kind with
+  | "apply" =>
+      let (t, ws) ← pXf dim ws; let p ← done (← pV dim 0 ws)
+      some (sV dim (t.apply p))
+  | "bounds" =>
+      let (t, ws) ← pXf dim ws; let (lo, ws) ← pV dim 0 ws; let hi ← done (← pV dim 0 ws)
+      some (sB dim (t.applyBounds lo hi))
+  | "invdesc" =>
+      let t ← done (← pXf dim ws)
+      some (sXf dim t.inverse)
+  | "roundtrip" =>
+      let (t, ws) ← pXf dim ws; let p ← done (← pV dim 0 ws)
+      let spec := sV dim p ++ " " ++ sV dim p
+      let model := sV dim (t.inverse.apply (t.apply p)) ++ " " ++ sV dim (t.apply (t.inverse.apply p))
+      some (if model = spec then spec else spec ++ " MODEL-NE-SPEC:" ++ model)
+  | "encl" =>
+      let (t, ws) ← pXf dim ws; let (lo, ws) ← pV dim 0 ws; let (hi, ws) ← pV dim 0 ws; let p ← done (← pV dim 0 ws)
+      let b := t.applyBounds lo hi
+      some (if inBounds (t.apply p) b.1 b.2 then "1" else "1 MODEL-NE-SPEC:0")
+  | "appdist" =>
+      let (t, ws) ← pXf dim ws; let d ← done (← pRat ws)
+      some (showRat (t.applyDistance d))
+  | "dist" =>
+      let (t, ws) ← pXf dim ws; let (p, ws) ← pV dim 0 ws; let q ← done (← pV dim 0 ws)
+      match ratSqrt ((t.apply p).sub (t.apply q)).normSq, ratSqrt (p.sub q).normSq with
+      | some r, some d =>
+          let spec := showRat r ++ " " ++ showRat r
+          let model := showRat (t.applyDistance d)
+          some (if model = showRat r then spec else spec ++ " MODEL-NE-SPEC:" ++ model)
+      | _, _ => some "irrational"
+  | "solid" =>
+      let (t, ws) ← pXf dim ws; let (lo, ws) ← pV dim 0 ws; let (hi, ws) ← pV dim 0 ws
+      let (q, ws) ← pV dim 0 ws; let c ← done (← pNat ws)
+      let stub : Solid Q := { lo := lo, hi := hi, contains := fun x => if x = q then c == 1 else !(c == 1) }
+      let ts := transformSolid t stub
+      let spec := boolStr (c == 1)
+      let model := boolStr (ts.contains (t.apply q))
+      some ((if model = spec then spec else spec ++ " MODEL-NE-SPEC:" ++ model) ++ " " ++ sB dim (ts.lo, ts.hi))
+  | "solidr" =>
+      let (t, ws) ← pXf dim ws; let (lo, ws) ← pV dim 0 ws; let (hi, ws) ← pV dim 0 ws
+      let p ← done (← pV dim 0 ws)
+      let rect : Solid Q := { lo := lo, hi := hi, contains := fun x => inBounds x lo hi }
+      some (boolStr ((transformSolid t rect).contains p))
+  | "sdf" =>
+      let (t, ws) ← pXf dim ws; let (lo, ws) ← pV dim 0 ws; let (hi, ws) ← pV dim 0 ws
+      let (q, ws) ← pV dim 0 ws; let v ← done (← pRat ws)
+      let stub : SDF Q := { lo := lo, hi := hi, sdf := fun x => if x = q then v else v + 1000 }
+      let ts := transformSDF t stub
+      let spec := showRat (v * specFactor t)
+      let model := showRat (ts.sdf (t.apply q))
+      some ((if model = spec then spec else spec ++ " MODEL-NE-SPEC:" ++ model) ++ " " ++ sB dim (ts.lo, ts.hi))
+  | "mball" =>
+      let (t, ws) ← pXf dim ws; let (lo, ws) ← pV dim 0 ws; let (hi, ws) ← pV dim 0 ws
+      let (q, ws) ← pV dim 0 ws; let (mv, ws) ← pRat ws; let (d, ws) ← pRat ws; let bd ← done (← pRat ws)
+      let stub : Metaball Q := { lo := lo, hi := hi, field := fun x => if x = q then mv else mv + 1000,
+                                 distBound := fun x => if x = d then bd else bd + 1000 }
+      let tm := transformMetaball t stub
+      let spec := showRat mv ++ " " ++ showRat bd
+      let model := showRat (tm.field (t.apply q)) ++ " " ++ showRat (tm.distBound (d * specFactor t))
+      some ((if model = spec then spec else spec ++ " MODEL-NE-SPEC:" ++ model) ++ " " ++ sB dim (tm.lo, tm.hi))
+  | "vmball" =>
+      let (sc, ws) ← pV dim 1 ws; let (lo, ws) ← pV dim 0 ws; let (hi, ws) ← pV dim 0 ws
+      -- on the plane the third scale component repeats the first, so that `MaxCoord` ranges over x and y only
+      let sc : V3 Q := if dim = 2 then ⟨sc.x, sc.y, sc.x⟩ else sc
+      let (q, ws) ← pV dim 0 ws; let (mv, ws) ← pRat ws; let (d, ws) ← pRat ws
+      let (a, ws) ← pRat ws; let b ← done (← pRat ws)
+      let stub : Metaball Q := { lo := lo, hi := hi, field := fun x => if x = q then mv else mv + 1000,
+                                 distBound := fun x => a * x + b }
+      let vm := vecScaleMetaball stub sc
+      some (showRat (vm.field (q.mul sc)) ++ " " ++ showRat (vm.distBound d) ++ " " ++ sB dim (vm.lo, vm.hi))
+  | "inner" =>
+      let (t, ws) ← pXf dim ws; let (o, ws) ← pV dim 0 ws; let d ← done (← pV dim 0 ws)
+      let r := innerRay t.inverse ⟨o, d⟩
+      some (sV dim r.origin ++ " " ++ sV dim r.dir)
+  | "outer" =>
+      let (t, ws) ← pXf dim ws; let (hs, ws) ← pHits dim 1 ws; let _ ← done ((), ws)
+      let r : Ray Q := ⟨V3.zero, ⟨1, 0, 0⟩⟩
+      match tcRayCollisions sqrtQ t (dummyCollider hs) r true with
+      | .ok _ calls => some ("|".intercalate (calls.map (sHit dim)))
+      | .panic => some "panic"
+  | "nilcb" =>
+      let (t, ws) ← pXf dim ws; let k ← done (← pNat ws)
+      let hs := List.replicate k (⟨1, ⟨1, 0, 0⟩, 0⟩ : Hit Q)
+      some (rcStr dim (tcRayCollisions sqrtQ t (dummyCollider hs) ⟨V3.zero, ⟨1, 0, 0⟩⟩ false))
+  | "sphin" =>
+      let (t, ws) ← pXf dim ws; let (c, ws) ← pV dim 0 ws; let (r, ws) ← pRat ws; let reply ← done (← pNat ws)
+      some (sV dim (t.inverse.apply c) ++ " " ++ showRat (t.inverse.applyDistance r) ++ " " ++ toString reply)
+  | "cbounds" =>
+      let (t, ws) ← pXf dim ws; let (lo, ws) ← pV dim 0 ws; let hi ← done (← pV dim 0 ws)
+      some (sB dim (t.applyBounds lo hi))
+  | "coll" =>
+      let mode ← ws.head?
+      let (t, ws) ← pXf dim (ws.drop 1)
+      let (o, ws) ← pV dim 0 ws; let (d, ws) ← pV dim 0 ws
+      let (o', ws) ← pV dim 0 ws; let (d', ws) ← pV dim 0 ws
+      let (cnt, ws) ← pNat ws; let (n, ws) ← pNat ws
+      let hs ← done (← pHits dim n ws)
+      let stub := tableCollider ⟨o', d'⟩ cnt hs (⟨0, V3.zero, 0⟩, false) V3.zero 0 false
+      let withCb := mode == "cb"
+      let spec : RCResult Q := .ok cnt (if withCb then hs.map (specHit t) else [])
+      let model := tcRayCollisions sqrtQ t stub ⟨o, d⟩ withCb
+      let s := rcStr dim spec
+      some (if rcStr dim model = s then s else s ++ " MODEL-NE-SPEC:" ++ rcStr dim model)
+  | "first" =>
+      let (t, ws) ← pXf dim ws
+      let (o, ws) ← pV dim 0 ws; let (d, ws) ← pV dim 0 ws
+      let (o', ws) ← pV dim 0 ws; let (d', ws) ← pV dim 0 ws
+      let (ok, ws) ← pNat ws
+      let hs ← done (← pHits dim ok ws)
+      let fst : Hit Q × Bool := match hs with | [] => (⟨0, V3.zero, 0⟩, false) | h :: _ => (h, true)
+      let stub := tableCollider ⟨o', d'⟩ 0 [] fst V3.zero 0 false
+      let render : Hit Q × Bool → String := fun r => if r.2 then "hit " ++ sHit dim r.1 else "miss"
+      let s := render (specHit t fst.1, fst.2)
+      let model := render (tcFirst sqrtQ t stub ⟨o, d⟩)
+      some (if model = s then s else s ++ " MODEL-NE-SPEC:" ++ model)
+  | "sphc" =>
+      let (t, ws) ← pXf dim ws
+      let (c, ws) ← pV dim 0 ws; let (r, ws) ← pRat ws
+      let (q, ws) ← pV dim 0 ws; let (rad, ws) ← pRat ws; let want ← done (← pNat ws)
+      let stub := tableCollider ⟨V3.zero, V3.zero⟩ 0 [] (⟨0, V3.zero, 0⟩, false) q rad (want == 1)
+      let s := boolStr (want == 1)
+      let model := boolStr (tcSphere t stub c r)
+      some (if model = s then s else s ++ " MODEL-NE-SPEC:" ++ model)
+  | _ => none
+
+/-! ### matrices -/
+
+def pM2 : P (M2 Q) := fun ws => do
+  let (a, ws) ← pRat ws; let (b, ws) ← pRat ws; let (c, ws) ← pRat ws; let (d, ws) ← pRat ws
+  some (⟨a, b, c, d⟩, ws)
+
+def sM2 (m : M2 Q) : String := showList showRat [m.a0, m.a1, m.a2, m.a3]
+
+def handleMat3 (ws : List String) : Option String := do
+  match ws with
+  | "det" :: ws => let m ← done (← pM 3 ws); some (showRat m.det)
+  | "inv" :: ws => let m ← done (← pM 3 ws); some (sM 3 m.inverse)
+  | "mul" :: ws => let (m, ws) ← pM 3 ws; let n ← done (← pM 3 ws); some (sM 3 (m.mul n))
+  | "mulcol" :: ws => let (m, ws) ← pM 3 ws; let p ← done (← pV 3 0 ws); some (sV 3 (m.mulColumn p))
+  | "mulcolinv" :: ws => let (m, ws) ← pM 3 ws; let p ← done (← pV 3 0 ws); some (sV 3 (m.mulColumnInv p m.det))
+  | "tr" :: ws => let m ← done (← pM 3 ws); some (sM 3 m.transpose)
+  | "invmul" :: ws => let _ ← done (← pM 3 ws); some (sM 3 M3.one ++ " " ++ sM 3 M3.one)
+  | _ => none
+
+def handleMat2 (ws : List String) : Option String := do
+  match ws with
+  | "det" :: ws => let m ← done (← pM2 ws); some (showRat m.det)
+  | "inv" :: ws => let m ← done (← pM2 ws); some (sM2 m.inverse)
+  | "mul" :: ws => let (m, ws) ← pM2 ws; let n ← done (← pM2 ws); some (sM2 (m.mul n))
+  | "mulcol" :: ws =>
+      let (m, ws) ← pM2 ws; let (x, ws) ← pRat ws; let y ← done (← pRat ws)
+      let r := m.mulColumn ⟨x, y⟩
+      some (showRat r.x ++ " " ++ showRat r.y)
+  | "mulcolinv" :: ws =>
+      let (m, ws) ← pM2 ws; let (x, ws) ← pRat ws; let y ← done (← pRat ws)
+      let r := m.mulColumnInv ⟨x, y⟩ m.det
+      some (showRat r.x ++ " " ++ showRat r.y)
+  | "tr" :: ws => let m ← done (← pM2 ws); some (sM2 m.transpose)
+  | "invmul" :: ws => let _ ← done (← pM2 ws); some (sM2 M2.one ++ " " ++ sM2 M2.one)
+  | _ => none
+
+/-! ### `AxisPinch` with `Power ∈ {2, 1/2, 1}` -/
+
+def powOf : String → Option ((Q → Q) × Q)
+  | "sq" => some (fun t => t * t, 2)
+  | "rt" => some (sqrtQ, 1 / 2)
+  | "one" => some (id, 1)
+  | _ => none
+
+def handlePinch (ws : List String) : Option String := do
+  let sub ← ws.head?
+  let (ax, ws) ← pNat (ws.drop 1)
+  let (lo, ws) ← pRat ws; let (hi, ws) ← pRat ws
+  let pwName ← ws.head?
+  let (powF, power) ← powOf pwName
+  let ws := ws.drop 1
+  let a : Pinch Q := ⟨ax, lo, hi⟩
+  match sub with
+  | "apply" => let p ← done (← pV 3 0 ws); some (sV 3 (a.apply powF p))
+  | "invdesc" => if ws.isEmpty then some s!"{ax} {showRat lo} {showRat hi} {showRat (1 / power)}" else none
+  | "roundtrip" => let p ← done (← pV 3 0 ws); some (sV 3 p ++ " " ++ sV 3 p)
+  | "encl" =>
+      let (_, ws) ← pV 3 0 ws; let (_, ws) ← pV 3 0 ws; let _ ← done (← pV 3 0 ws)
+      some "1"
+  | _ => none
+
+def stripDim (k : String) : Option (String × Nat) :=
+  if k.endsWith "3" then some ((k.dropEnd 1).toString, 3)
+  else if k.endsWith "2" then some ((k.dropEnd 1).toString, 2)
+  else none
+
+def handleAll (ws : List String) : Option String :=
+  match ws with
+  | "mat3" :: rest => handleMat3 rest
+  | "mat2" :: rest => handleMat2 rest
+  | "pinch" :: rest => handlePinch rest
+  | k :: rest => do
+      let (kind, dim) ← stripDim k
+      handleXf dim kind rest
+  | [] => none
 
 end M3d.Drv.C05
